@@ -18,13 +18,25 @@ Definition build (w : list Z) (s : fstate) : fit :=
 Definition six (a b : fit) : list bool := [f_lt a b; f_le a b; f_eq a b; f_ne a b; f_gt a b; f_ge a b].
 Definition csix (a b : fit) : list bool := [c_lt a b; c_le a b; c_eq a b; c_ne a b; c_gt a b; c_ge a b; c_dominates a b].
 
+Inductive cop := CSet (v : list Z) | CDel | CViol (c : option (list bool)).
+Definition cstep (w : list Z) (f : fit) (o : cop) : fit :=
+  match o with
+  | CSet v => match set_values w f v with Some f' => f' | None => f end
+  | CDel => c_del_values f
+  | CViol c => mkfit (wv f) c
+  end.
+
 Inductive case :=
 | CCmp (w : list Z) (va vb : option (list Z)) (obs_wa obs_wb : list Z) (obs : list bool)
 | CDom (w va vb : list Z) (s : pyslice) (obs : bool)
 | CRound (w v : list Z) (obs_values : list Z)
 | CHist (w : list Z) (ops : list fop) (obs_valid : list bool)
 | CClone (w : list Z) (s : fstate) (constrained : bool) (obs_eq obs_valid : bool) (obs_wv : list Z)
-| CCons (w : list Z) (sa sb : fstate) (obs : list bool).
+| CCons (w : list Z) (sa sb : fstate) (obs : list bool)
+(* a history of operations on one ConstrainedFitness: assign values, del values, assign
+   constraint_violation; observed after every step: valid, wvalues, constraint_violation, and the
+   seven comparisons against a reference fitness *)
+| CConsHist (w : list Z) (ops : list cop) (ref : fstate) (obs : list (bool * list Z * option (list bool) * list bool)).
 
 Definition zl_eqb := list_eqb Z.eqb.
 Definition bl_eqb := list_eqb Bool.eqb.
@@ -33,6 +45,18 @@ Fixpoint valid_trace (w : list Z) (f : fit) (ops : list fop) : list bool :=
   match ops with
   | [] => []
   | o :: r => let f' := step w f o in valid f' :: valid_trace w f' r
+  end.
+
+Definition obl_eqb := option_eqb (list_eqb Bool.eqb).
+Fixpoint chist (w : list Z) (f : fit) (r : fit) (ops : list cop)
+  (obs : list (bool * list Z * option (list bool) * list bool)) : bool :=
+  match ops, obs with
+  | [], [] => true
+  | o :: ops', (v, owv, ocv, six) :: obs' =>
+      let f' := cstep w f o in
+      Bool.eqb (valid f') v && zl_eqb (wv f') owv && obl_eqb (cv f') ocv && bl_eqb (csix f' r) six &&
+      chist w f' r ops' obs'
+  | _, _ => false
   end.
 
 Definition check (c : case) : bool :=
@@ -54,4 +78,5 @@ Definition check (c : case) : bool :=
       Bool.eqb (if constrained then c_eq f c else f_eq f c) oeq &&
       Bool.eqb (valid c) ovalid && zl_eqb (wv c) owv
   | CCons w sa sb obs => bl_eqb (csix (build w sa) (build w sb)) obs
+  | CConsHist w ops r obs => chist w (mkfit [] None) (build w r) ops obs
   end.
